@@ -603,4 +603,29 @@ Proof.
     + destruct path; eexists; reflexivity.
 Qed.
 
+(* ---- C08: what Compile returns (root Error() first, then the first task error) ---- *)
+Lemma run_nil : forall s, run cfg [] s = s.
+Proof. reflexivity. Qed.
+
+Theorem compile_final_lemma : forall sched task_errs,
+  let s := run cfg sched (init cfg) in
+  (1 <= ncalls s -> plain_seen s = false -> (forall tag e, ~ In (CErr tag (Some e)) (rlog s)) ->
+     compile_final s task_errs = Some EInvalidSource) /\
+  (forall e, root_err s = Some e -> compile_final s task_errs = Some e) /\
+  (compile_final s task_errs = None -> handled s = 0 /\ forall x, In x task_errs -> x = None) /\
+  (handled s = 0 -> compile_final s task_errs = first_some task_errs).
+Proof.
+  intros sched task_errs. cbv zeta. unfold compile_final.
+  pose proof (success_iff_no_error_lemma sched) as (H0 & _). cbv zeta in H0.
+  split; [|split; [|split]].
+  - intros Hn Hp Hall. rewrite (accept_all_invalid_source_lemma sched Hn Hp Hall). reflexivity.
+  - intros e He. destruct (abort_latches_lemma sched) as [_ H2].
+    destruct (H2 e He []) as (_ & Hr & _). rewrite run_nil in Hr. rewrite Hr. reflexivity.
+  - destruct (error_result (hs (run cfg sched (init cfg)) 0)) eqn:E; [discriminate|]. intros Hf. split.
+    + apply H0. reflexivity.
+    + intros x Hin. induction task_errs as [|y r IH]; [contradiction|]. cbn [first_some] in Hf.
+      destruct y as [a|]; [discriminate|]. destruct Hin as [<-|Hin]; [reflexivity|]. apply IH; assumption.
+  - intros Hh. apply H0 in Hh. rewrite Hh. reflexivity.
+Qed.
+
 End Rep.
